@@ -1,12 +1,121 @@
 // C02 — An output can be spent at most once and only if it exists.
-// chainsim over the spend menu: duplicate inputs, two spenders in one block, re-spend of outputs spent 1 / 2
-// blocks earlier, never-created outpoints, out-of-range output index, OP_RETURN outputs, child-before-parent
-// order, immature coinbase; the same coin spent on competing branches (valid there) arises from building the
-// same kinds on t0 / t1. Flushes and invalidate/reconsider interleave.
+// (1) chainsim over the spend menu: duplicate inputs, two spenders in one block, re-spend of outputs spent 1 / 2
+//     blocks earlier, never-created outpoints, out-of-range output index, OP_RETURN outputs, child-before-parent
+//     order, immature coinbase; the same coin spent on competing branches (valid there) arises from building the
+//     same kinds on t0 / t1. Flushes and invalidate/reconsider interleave.
+// (2) BIP30 (no overwriting of unspent outputs by a transaction with the same txid): directed histories on a node
+//     whose height-in-coinbase rule activates late (-testactivationheight=bip34@H), so that an early coinbase can
+//     already carry the encoding of a later height and be duplicated byte for byte at that height: while the early
+//     coinbase is unspent the duplicate must be rejected and the old coin must survive; once it is spent the
+//     duplicate is allowed.
 #include <kits/chainsim_main.h>
+#include <sys/wait.h>
+
+using namespace ck;
+
+// runs in a forked child (own Node with different args); reports through the exit code + a line on the pipe
+static void Bip30Child(int fd, int dup_height, bool spend_first, bool flush_between)
+{
+    std::string out;
+    try {
+        NodeOpts o;
+        std::string arg = "-testactivationheight=bip34@" + std::to_string(dup_height - 3);
+        o.extra_args = {arg.c_str()};
+        Node n(o);
+        RefLedger L;
+        L.AddGenesis(Params().GenesisBlock());
+        SetMockTime(Params().GenesisBlock().nTime + 600 * 100000);
+        MineEmpty(n, L, 3);
+        // block E at height 4 (before BIP34): its coinbase encodes height `dup_height`
+        BlockOpts eo;
+        eo.bip34_height_override = dup_height;
+        eo.extra_nonce = 77;
+        CBlock E = MakeBlock(n, n.tip(), {}, eo);
+        L.Add(E);
+        BlockResult r = n.ProcessBlock(E);
+        if (n.tip()->GetBlockHash() != E.GetHash()) { out = "HARNESS early block with a future height encoding was not accepted: " + r.reason; goto done; }
+        {
+            COutPoint early(E.vtx[0]->GetHash(), 0);
+            CAmount early_value = E.vtx[0]->vout[0].nValue;
+            MineEmpty(n, L, dup_height - 1 - 4 - (spend_first ? 1 : 0));
+            if (spend_first) {
+                // spend the early coinbase completely (it is mature: dup_height - 5 >= 100)
+                auto tx = SpendTx({early}, {early_value - 1000});
+                BlockOpts so; so.fees = 1000;
+                CBlock S = MakeBlock(n, n.tip(), {tx}, so);
+                L.Add(S);
+                n.ProcessBlock(S);
+                if (n.tip()->GetBlockHash() != S.GetHash()) { out = "HARNESS spend of the early coinbase not accepted"; goto done; }
+            }
+            if (flush_between) n.Flush();
+            if (n.height() != dup_height - 1) { out = "HARNESS wrong height " + std::to_string(n.height()); goto done; }
+            // the duplicate: identical coinbase (same scriptSig, same outputs) at height dup_height
+            BlockOpts dopt;
+            dopt.bip34_height_override = dup_height;
+            dopt.extra_nonce = 77;
+            CBlock D = MakeBlock(n, n.tip(), {}, dopt);
+            if (D.vtx[0]->GetHash() != E.vtx[0]->GetHash()) { out = "HARNESS duplicate coinbase has a different txid"; goto done; }
+            uint256 tip_before = n.tip()->GetBlockHash();
+            BlockResult rd = n.ProcessBlock(D);
+            bool active = n.tip()->GetBlockHash() == D.GetHash();
+            auto coin = n.GetCoin(early);
+            if (!spend_first) {
+                if (active) out = "VIOLATION a block whose coinbase has the txid of a still unspent earlier coinbase was connected (BIP30): the unspent output was overwritten";
+                else if (!coin || coin->nHeight != 4) out = "VIOLATION the earlier unspent coinbase output is gone or changed after the duplicate was rejected";
+                else if (n.tip()->GetBlockHash() != tip_before) out = "VIOLATION tip moved although the duplicate-coinbase block is invalid";
+                else out = "OK rejected (" + rd.reason + ")";
+            } else {
+                if (!active) out = "VIOLATION a duplicate of a fully spent coinbase was rejected (" + rd.reason + ") although BIP30 allows it";
+                else if (!coin || (int)coin->nHeight != dup_height) out = "VIOLATION the re-created coinbase output is missing or has the wrong height";
+                else out = "OK accepted";
+            }
+        }
+    } catch (const std::exception& e) {
+        out = std::string("HARNESS exception ") + e.what();
+    }
+done:
+    out += "\n";
+    (void)!write(fd, out.data(), out.size());
+}
+
 int main(int argc, char** argv)
 {
-    return cs::Main(argc, argv, "C02", {}, [](cs::Sim& s) {
+    vx::init(argc, argv, "C02", "model_checking", 170, 1500);
+    vx::scratch_dir();
+    auto& E = vx::ev();
+    // ---- (2) BIP30 directed histories first (each in a fresh process: different chain parameters)
+    if (vx::ctx().replay.empty()) {
+        int n_ok = 0, n_cases = 0;
+        for (int dup_height : vx::thorough() ? std::vector<int>{110, 111, 140} : std::vector<int>{110})
+            for (bool spend_first : {false, true})
+                for (bool flush_between : {false, true}) {
+                    if (!vx::thorough() && flush_between && spend_first) continue;
+                    int fds[2];
+                    if (pipe(fds)) return 2;
+                    fflush(stdout);
+                    pid_t p = fork();
+                    if (p == 0) { close(fds[0]); Bip30Child(fds[1], dup_height, spend_first, flush_between); _exit(0); }
+                    close(fds[1]);
+                    std::string line;
+                    char buf[1024];
+                    ssize_t r;
+                    while ((r = read(fds[0], buf, sizeof buf)) > 0) line.append(buf, r);
+                    close(fds[0]);
+                    int st = 0;
+                    waitpid(p, &st, 0);
+                    while (!line.empty() && line.back() == '\n') line.pop_back();
+                    std::string cs = "dup_height=" + std::to_string(dup_height) + " original_spent_first=" + std::to_string(spend_first) + " flush_between=" + std::to_string(flush_between);
+                    n_cases++;
+                    E.transitions += dup_height; // blocks delivered through ProcessNewBlock in this history
+                    if (!WIFEXITED(st) || WEXITSTATUS(st) != 0 || line.empty()) vx::violation("C02-bip30-process-died:" + cs, "node died while processing the BIP30 history {" + cs + "}", cs);
+                    else if (line.rfind("VIOLATION", 0) == 0) vx::violation("C02-bip30:" + std::string(spend_first ? "spent-duplicate-rejected" : "unspent-overwritten"), line.substr(10) + " {" + cs + "}", cs);
+                    else if (line.rfind("HARNESS", 0) == 0) { printf("HARNESS-ERROR property=C02 %s {%s}\n", line.c_str(), cs.c_str()); return 2; }
+                    else { n_ok++; if (n_ok <= 2) E.sample("BIP30 history {" + cs + "}: " + line); }
+                }
+        E.set("bip30_histories", (uint64_t)n_cases);
+    }
+    // ---- (1) spend menu exploration
+    int rc = cs::Explore("C02", {}, [](cs::Sim& s) {
         cs::Plan p;
         s.kinds = {"spend1", "opret", "chain2", "chain2rev", "dup_input", "dup_input3", "two_spenders", "respend_parent", "respend_grandparent",
                    "spend_missing", "spend_bad_index", "spend_opret", "spend_immature", "spend2"};
@@ -15,7 +124,9 @@ int main(int argc, char** argv)
         p.depth = vx::thorough() ? 4 : 2;
         s.max_new_blocks = p.depth;
         p.split = 1;
-        p.what = "oracle: a block spending a missing / spent / unspendable / immature output is never in the active chain; UTXO == reference after every step";
+        p.what = "oracle: a block spending a missing / spent / unspendable / immature output is never in the active chain; UTXO == reference after every step; plus directed BIP30 histories (duplicate of an unspent / of a fully spent coinbase on a late-BIP34 regtest)";
         return p;
     });
+    if (rc >= 0) return rc;
+    return vx::finish();
 }
